@@ -841,7 +841,10 @@ J_C24(i) ==
                             IF \E j \in 1..(n - 1) : e.out[k][j].t = PUBLISH /\ e.out[k][j].alias = a /\ e.out[k][j].ts # ""
                             THEN e.out[k][CHOOSE j \in 1..(n - 1) : e.out[k][j].t = PUBLISH /\ e.out[k][j].alias = a /\ e.out[k][j].ts # "" /\ \A j2 \in (j + 1)..(n - 1) : ~(e.out[k][j2].t = PUBLISH /\ e.out[k][j2].alias = a /\ e.out[k][j2].ts # "")].ts
                             ELSE g.aliasOut[k][a]]
-            IN Cat(<<If(q.alias > tam, Cmp("C24.alias-exceeds-client-maximum", k, q.m, q.alias)),
+            IN Cat(<<\* (a stored in-flight PUBLISH that carried an alias is resent verbatim on the session's next connection,
+                     \*  whose Topic Alias Maximum may be smaller or 0: recorded finding AliasedPublishResentVerbatim)
+                     If(q.alias > tam, IF e.ev = "connect" /\ k = e.k THEN Cmp("C24.aliased-publish-resent-on-new-connection", k, q.m, q.alias)
+                                       ELSE Cmp("C24.alias-exceeds-client-maximum", k, q.m, q.alias)),
                      If(q.ts = "" /\ q.alias = 0, IF e.ev = "connect" THEN Cmp("C24.aliased-publish-resent-on-new-connection", k, q.m, 0)
                                                   ELSE Cmp("C24.empty-topic-without-alias", k, q.m, 0)),
                      \* (an alias that exists only in the broker's outbound table - its first carrier was dropped, deferred
@@ -978,7 +981,12 @@ J_C25(i) ==
       \* a message whose expiry lies before the last housekeeping time is never transmitted for the first time
       ForAll(AllClientIds(e), LAMBDA d :
          ForAll({q \in ToSet(PktsTo(e, d)) : q.t = PUBLISH /\ q.m \in DOMAIN g.expm /\ q.m \notin Get(g.txed, d, {})}, LAMBDA q :
-            If(q.m \in (IF q.ret /\ e.ev = "subscribe" THEN g.deadR ELSE g.deadI), Cmp("C25.expired-message-delivered", d, q.m, IF q.ret THEN 1 ELSE 0)))),
+            \* (a record stored with the "send later" marker Expiry = -1 is invisible to the in-flight housekeeping:
+            \*  recorded finding DeferredMarkerErasesExpiry, own rule name)
+            If(q.m \in (IF q.ret /\ e.ev = "subscribe" THEN g.deadR ELSE g.deadI),
+               IF \E r \in InflightOf(pre, d) : r.pid = q.pid /\ r.m = q.m /\ r.expiry < 0
+               THEN Cmp("C25.expired-message-delivered-from-deferred-record", d, q.m, IF q.ret THEN 1 ELSE 0)
+               ELSE Cmp("C25.expired-message-delivered", d, q.m, IF q.ret THEN 1 ELSE 0)))),
       \* delivered Message Expiry Interval never exceeds the time remaining
       ForAll({k \in DOMAIN e.out : ConnRec(e.conns, k).v = 5}, LAMBDA k :
          ForAll({q \in ToSet(e.out[k]) : q.t = PUBLISH /\ q.m \in DOMAIN g.expm /\ g.expm[q.m] > 0}, LAMBDA q :
@@ -986,7 +994,12 @@ J_C25(i) ==
                      IF \E r \in InflightOf(pre, ConnRec(e.conns, k).c) \cup InflightOf(e.st, ConnRec(e.conns, k).c) : r.pid = q.pid /\ r.m = q.m /\ r.expiry < 0
                      THEN Cmp("C25.expiry-interval-missing-on-deferred-message", k, q.m, 0)
                      ELSE Cmp("C25.expiry-interval-missing", k, q.m, 0)),
-                  If(q.mei >= 0 /\ q.mei > g.expm[q.m] - pre.now + 1 /\ q.mei > 1, Cmp("C25.expiry-interval-grew", k, q.m, q.mei - (g.expm[q.m] - pre.now)))>>)))
+                  \* (a record stored with the "send later" marker Expiry = -1 keeps the publisher's interval instead of the
+                  \*  time remaining: same recorded finding as the missing interval above, own rule name)
+                  If(q.mei >= 0 /\ q.mei > g.expm[q.m] - pre.now + 1 /\ q.mei > 1,
+                     IF \E r \in InflightOf(pre, ConnRec(e.conns, k).c) \cup InflightOf(e.st, ConnRec(e.conns, k).c) : r.pid = q.pid /\ r.m = q.m /\ r.expiry < 0
+                     THEN Cmp("C25.expiry-interval-stale-on-deferred-message", k, q.m, q.mei - (g.expm[q.m] - pre.now))
+                     ELSE Cmp("C25.expiry-interval-grew", k, q.m, q.mei - (g.expm[q.m] - pre.now)))>>)))
     >>)
 
 (* ================================================================== all rules of one line *)
